@@ -1,5 +1,5 @@
 From Coq Require Import ZArith List Bool.
-From RV Require Import Base.Wire Base.Text Lang.Rx Lang.Lex Lang.PyLayout Lang.Layout Lang.DispatchSpec Lang.EmitBlocks Lang.LineShapes Lang.LineDispatch Gen.LineRx.
+From RV Require Import Base.Wire Base.Text Lang.Rx Lang.Lex Lang.PyLayout Lang.Layout Lang.DispatchSpec Lang.EmitBlocks Lang.LineShapes Lang.LineDispatch Lang.Promote Lang.EmitStmt Gen.LineRx.
 Import ListNotations.
 Open Scope Z_scope.
 
@@ -171,8 +171,105 @@ Fixpoint un_gaps (l : list wv) : option (list text) :=
   | x :: r => match un_text x, un_gaps r with Some a, Some b => Some (a :: b) | _, _ => None end
   end.
 
+(* ---- statement layer (Lang/Promote.v, Lang/EmitStmt.v) *)
+Definition dec_phdr (v : wv) : option phdr :=
+  match v with
+  | WL [WI 0; c] => option_map HIf (un_text c)
+  | WL [WI 1; c] => option_map HElif (un_text c)
+  | WL [WI 2] => Some HElse
+  | WL [WI 3; c] => option_map HWhile (un_text c)
+  | WL [WI 4; x; n] => match un_text x, un_text n with Some x', Some n' => Some (HFor x' n') | _, _ => None end
+  | WL [WI 5] => Some HTry
+  | WL [WI 6; c] => option_map HCatch (un_text c)
+  | _ => None
+  end.
+Definition enc_phdr (h : phdr) : wv :=
+  match h with
+  | HIf c => WL [WI 0; wtext c] | HElif c => WL [WI 1; wtext c] | HElse => WL [WI 2]
+  | HWhile c => WL [WI 3; wtext c] | HFor x n => WL [WI 4; wtext x; wtext n] | HTry => WL [WI 5]
+  | HCatch c => WL [WI 6; wtext c]
+  end.
+Fixpoint dec_pn (v : wv) : option pn :=
+  let fix decs (l : list wv) : option (list pn) :=
+    match l with
+    | [] => Some []
+    | x :: r => match dec_pn x, decs r with Some e, Some es => Some (e :: es) | _, _ => None end
+    end in
+  match v with
+  | WL [WI 0; n; t; e; g] =>
+      match un_text n, un_text t, un_text e, un_bool g with
+      | Some n', Some t', Some e', Some g' => Some (PDecl n' t' e' g') | _, _, _, _ => None end
+  | WL [WI 1; n; e] => match un_text n, un_text e with Some n', Some e' => Some (PAssign n' e') | _, _ => None end
+  | WL [WI 2; cl] => option_map PSimple (un_texts cl)
+  | WL [WI 3; h; WL b] => match dec_phdr h, decs b with Some h', Some b' => Some (PCtl h' b') | _, _ => None end
+  | _ => None
+  end.
+Fixpoint dec_pns (l : list wv) : option (list pn) :=
+  match l with
+  | [] => Some []
+  | x :: r => match dec_pn x, dec_pns r with Some e, Some es => Some (e :: es) | _, _ => None end
+  end.
+Fixpoint enc_pn (n : pn) : wv :=
+  match n with
+  | PDecl a t e g => WL [WI 0; wtext a; wtext t; wtext e; wbool g]
+  | PAssign a e => WL [WI 1; wtext a; wtext e]
+  | PSimple cl => WL [WI 2; wtexts cl]
+  | PCtl h b => WL [WI 3; enc_phdr h; WL (map enc_pn b)]
+  end.
+Definition enc_pitem (e : list phdr * pitem) : wv :=
+  WL [WL (map enc_phdr (fst e));
+      match snd e with ItAssign n x => WL [WI 0; wtext n; wtext x] | ItOther cl => WL [WI 1; wtexts cl] end].
+
+Fixpoint dec_keys (l : list wv) : option (list key) :=
+  match l with
+  | [] => Some []
+  | x :: r => match un_texts x, dec_keys r with Some a, Some b => Some (a :: b) | _, _ => None end
+  end.
+Fixpoint dec_pins (l : list wv) : option (list (key * text)) :=
+  match l with
+  | [] => Some []
+  | WL [k; t] :: r => match un_texts k, un_text t, dec_pins r with Some k', Some t', Some r' => Some ((k', t') :: r') | _, _, _ => None end
+  | _ => None
+  end.
+Fixpoint dec_sn (v : wv) : option sn :=
+  let fix decs (l : list wv) : option (list sn) :=
+    match l with
+    | [] => Some []
+    | x :: r => match dec_sn x, decs r with Some e, Some es => Some (e :: es) | _, _ => None end
+    end in
+  match v with
+  | WL [WI 0; cl] => option_map SStmt (un_texts cl)
+  | WL [WI 1; u; WL pins; tl] =>
+      match un_bool u, dec_pins pins, un_texts tl with
+      | Some u', Some p', Some t' => Some (SDecl u' p' t') | _, _, _ => None end
+  | WL [WI 3; o; h; WL b] =>
+      match un_bool o, un_text h, decs b with Some o', Some h', Some b' => Some (SCtl o' h' b') | _, _, _ => None end
+  | _ => None
+  end.
+Fixpoint dec_sns (l : list wv) : option (list sn) :=
+  match l with
+  | [] => Some []
+  | x :: r => match dec_sn x, dec_sns r with Some e, Some es => Some (e :: es) | _, _ => None end
+  end.
+Definition enc_keys (l : list key) : wv := WL (map wtexts l).
+
 Definition run (v : wv) : wv :=
   match v with
+  | WL [WI 21; WI mode; names; WL tys; top; WL ns] =>
+      (* variable promotion: 0 _rewrite_nodes, 1 the if handler's _rewrite, 2 _make_promotion_decls; with the SPEC views *)
+      match un_texts names, dec_tbl1 tys, un_bool top, dec_pns ns with
+      | Some p, Some ty, Some tp, Some nodes =>
+          let out := match mode with 0 => rewrite p nodes | 1 => rewrite_if p nodes | _ => make_decls p ty tp end in
+          wok [WL (map enc_pn out); WL (map enc_pitem (items [] out)); WL (map enc_pitem (items [] nodes));
+               wbool (forallb is_placeholder out)]
+      | _, _, _, _ => wbad end
+  | WL [WI 22; b; i; WL pm; WL us; WL ns] =>
+      (* _emit_block with its two de-duplication sets: lines, sets afterwards; the statement lines alone (SPEC) *)
+      match un_bool b, un_text i, dec_keys pm, dec_keys us, dec_sns ns with
+      | Some b', Some ind, Some pm', Some us', Some nodes =>
+          let r := emit_sl b' ind nodes (pm', us') in
+          wok [wtexts (fst r); enc_keys (fst (snd r)); enc_keys (snd (snd r)); wtexts (emit_pl ind (map stmt_only nodes))]
+      | _, _, _, _, _ => wbad end
   | WL [WI 17; l] =>
       (* every regenerated RE_* pattern on the line, in table order *)
       match un_text l with
